@@ -429,9 +429,47 @@ def r_concat_offsets(c):
             f"the upper bounds `{U}` are not a running sum of the operands' lengths")
 
 
+def r_einsum_broadcast_first(c):
+    """einsum lowering: whether an operand axis is a broadcast unit axis (subscript
+    0) is decided FIRST and for every kind of axis descriptor alike; only an axis
+    that passed this test can contribute a subscript variable or a reduction bound
+    (otherwise a contracted index that is 1-long in one operand is read out of
+    bounds there, or bounds the whole reduction by 1)"""
+    m = c.model
+    from pta.pat import find
+    fd = m.resolve_method(TOIL, "map_einsum")[1]
+    where = m.loc(m.module_of(fd), fd)
+    loops = [l for l in ast.walk(fd) if isinstance(l, ast.For)
+             and ast.unparse(l.iter).startswith("enumerate(") and isinstance(l._parent, ast.For)]
+    ok = False
+    for l in loops:
+        if not (isinstance(l.target, ast.Tuple) and len(l.target.elts) == 2):
+            continue
+        ia, ax = (t.id for t in l.target.elts)
+        first = l.body[0]
+        got = find(ast.Module(body=[first], type_ignores=[]), f"""
+if not are_shape_components_equal($arg.shape[{ia}], $lens[{ax}]):
+    assert are_shape_components_equal($arg.shape[{ia}], 1)
+    $sub.append(0)
+    continue
+""")
+        if got and got[0]["@node"] is first:
+            # the rest of the body distinguishes the descriptor kinds
+            rest = l.body[1:]
+            ok = any(isinstance(s_, ast.If) and "EinsumElementwiseAxis" in ast.unparse(s_.test)
+                     for s_ in rest) and not any(
+                isinstance(x, ast.Continue) for s_ in rest for x in ast.walk(s_))
+    c.check(ok, "R02-BIND", "ToIndexLambdaMixin.map_einsum",
+            "broadcast-axes-decided-before-the-descriptor-kind", where,
+            "the per-axis loop does not begin with the unconditional broadcast test "
+            "(length differs from the einsum's length for this descriptor -> it is 1 -> "
+            "subscript 0, continue): broadcasting is applied to some descriptor kinds only, "
+            "or a reduction bound is taken from a broadcast axis")
+
+
 SPEC = Spec(
     prop="C02",
-    rules=[r_total, r_meta, r_consume, r_bind, r_sibling, r_domain, r_sibling_adv, r_reshape_passthrough, r_concat_offsets],
+    rules=[r_total, r_meta, r_consume, r_bind, r_sibling, r_domain, r_sibling_adv, r_reshape_passthrough, r_concat_offsets, r_einsum_broadcast_first],
     floors={"R02-TOTAL": 30, "R02-META": 70, "R02-CONSUME": 20, "R02-BIND": 14,
             "R02-DOMAIN": 3, "R02-SIBLING": 4},
     explanation=(
